@@ -4,14 +4,17 @@ namespace Ibx.Gen.Broker
 /-- how AsyncEventBroker.Emit hands an event to a listener (Emit only pushes; one worker per queue pops the head and calls) -/
 def asyncEmit : String := "perListenerQueue"
 
-/-- Emit passes a copy (`*event`) to the listeners -/
+/-- Emit itself passes a copy (`*<event parameter>`) to the listeners -/
 def asyncCopiesEvent : Bool := true
 
 /-- the AsyncEventBroker fields of extension.Events -/
 def asyncBrokerFields : List String := ["AfterMessageDeleted", "AfterMessageStored"]
 
-/-- NewHost gives all of them one queue set (a listener name has ONE queue for stored and deleted) -/
+/-- NewHost assigns one and the same variable to the queue-set field of all of them (a listener name has ONE queue for stored and deleted) -/
 def hostSharesQueues : Bool := true
+
+/-- pkg/msghub/hub.go calls AddListener exactly once on every AsyncEventBroker field of Events, each time with the same string literal as name (whatever it is) -/
+def msghubOneListenerName : Bool := true
 
 /-- EventBroker.Emit returns the first non-nil listener result, in slice order, else nil -/
 def syncEmitFirstResult : Bool := true
